@@ -146,6 +146,12 @@ func (e *Env) checkReplicaAdvanced() *Violation {
 		return nil
 	}
 	db := e.LS.DB
+	if db.SQLDB() == nil {
+		// this instance has not looked at the database yet (no DB.Sync since it
+		// was started): a bare Replica.Sync has nothing to report about; the
+		// first DB.Sync runs the start-up checks (database behind replica, ...)
+		return nil
+	}
 	dpos, err := db.Pos()
 	if err != nil || dpos.TXID == 0 {
 		return nil
